@@ -1,12 +1,12 @@
 (* Re-proved on every run against the REGENERATED text of writer.find_max_part, the part-name computation of
-   writer.write_multi, util.join_path, util.path_string and api.PART_ID (PqGen.GenPaths, translators/paths2coq.py).
+   writer.write_multi, util.join_path, util.path_string and api.PART_ID (PqGen.GenPartNames, translators/partnames2coq.py).
 
    The theorems tie the regenerated functions to the hand models of Dataset/FsPaths.v that every theorem of C07 / C09 /
    C19 about file names is stated with (so those theorems hold for the code as it is NOW), and re-prove the one fact
    all of them rest on directly on the regenerated text: a file name the append computes is never a referenced one.   *)
 From Coq Require Import NArith Arith List Lia Bool.
 From Pq Require Import Base.Bytes Dataset.FS Dataset.FsPaths Dataset.Ops Dataset.PathPrelude Proofs.OpsProofs.
-From PqGen Require Import GenPaths.
+From PqGen Require Import GenPartNames.
 Import ListNotations.
 Open Scope N_scope.
 
